@@ -546,6 +546,23 @@ def run_rates(case):
                     bad('rates/site=%s/scalar-vs-array/%s' % (sg, nme), t2 + 'scalar %r vs array entry %r' % (float(s), v))
         except Exception as e:
             bad('rates/site=%s/scalar-exception' % sg, t2 + '%s: %s' % (type(e).__name__, e))
+    # "the rate is zero for non-positive driving force" at every time, incubation included: whole-array and scalar calls
+    nonpos = [i for i, dg in enumerate(dgs) if dg <= 0]
+    if nonpos:
+        for tt in (0.0, 1e-9, 1.0, 1e30, math.inf):
+            try:
+                jt = np.asarray(nr.nucleationRate(Za, Ba, Ga, Ta, taua, time=tt), dtype=float)
+                js = [float(nr.nucleationRate(Za[i], Ba[i], Ga[i], T, taua[i], time=tt)) for i in nonpos]
+            except Exception as e:
+                bad('rates/site=%s/nonpositive-dG-exception' % sg, 't=%r %s: %s' % (tt, type(e).__name__, e))
+                break
+            nst += len(nonpos)
+            wrong = [(dgs[i], float(jt[i])) for i in nonpos if not jt[i] == 0] if jt.shape == dga.shape else [('shape', jt.shape)]
+            wrong += [(dgs[i], v) for i, v in zip(nonpos, js) if not v == 0]
+            if wrong:
+                bad('rates/site=%s/nonpositive-dG-rate-at-time/%s' % (sg, 't=0' if tt == 0 else 't>0'),
+                    'nucleationRate(..., time=%r) for dG <= 0 is not 0: %r' % (tt, wrong[:4]))
+                break
     # end to end through computeSteadyStateNucleation with the stub driving force table
     if case.get('e2e', True):
         th2 = StubTherm(D, dgs=dgs, Vm=Vm)
